@@ -21,7 +21,7 @@ def model_instances(arr, input_type, backend):
     return M.instances(a)
 
 
-def expected_results(pred, ref, cfg, metrics=METRICS):
+def expected_results(pred, ref, cfg, metrics=METRICS, assd_exact_ok=True):
     """All results the documented procedure can produce (one per distinct greedy outcome
     under permutation of tied candidates). Returns (list_of_result_dicts, complete, info)."""
     shape = np.asarray(ref).shape
@@ -50,7 +50,7 @@ def expected_results(pred, ref, cfg, metrics=METRICS):
     else:
         outs, complete = M.merge_outcomes(cands, mc["metric"], mc["thr"], pin, rin, shape)
     eps = M.tie_eps(mc["metric"])
-    if eps and any(abs(s - mc["thr"]) <= eps and s != mc["thr"] for s, _, _ in cands):
+    if eps and any(abs(s - mc["thr"]) <= eps and (s != mc["thr"] or not assd_exact_ok) for s, _, _ in cands):
         complete = False
     info["assignments"] = outs
     res = [M.evaluate_assignment(a, pin, rin, shape, metrics, decision) for a in sorted(outs, key=sorted)]
@@ -63,7 +63,7 @@ def expected_results(pred, ref, cfg, metrics=METRICS):
             for r, ps in groups.items():
                 P = frozenset().union(*[pin[p] for p in ps])
                 v = M.metric_value(decision[0], P, rin[r], shape)
-                if abs(v - decision[1]) <= M.tie_eps(decision[0]) and v != decision[1]:
+                if abs(v - decision[1]) <= M.tie_eps(decision[0]) and (v != decision[1] or not assd_exact_ok):
                     complete = False
     return res, complete, info
 
